@@ -9,6 +9,7 @@
 -/
 import MW.Lemmas.Deepen4Inv
 import MW.Lemmas.Deepen4Start
+import MW.Lemmas.Deepen4Stale
 import MW.Lemmas.Deepen4Batch
 namespace MW.Lemmas.Deepen4
 open MW MW.Model.Ledger MW.Model.Persist MW.Spec.Persist MW.Spec.Chain MW.Spec.Books MW.Lemmas.Ledger
@@ -76,51 +77,67 @@ theorem JI_reorgTo {cfg : Cfg} {G : Block} (cr : Bool) {x : SysQ} {k : Skel} {w 
 
 -- ------------------------------------------------------------------ handler steps
 
-/-- a handler step inside the window, for a notification that is on the node's chain (extension, reorganisation
-    above / at / below the cursor of the rescan) -/
+/-- a handler step inside the window, for ANY queued notification: a block of the node's chain (extension,
+    reorganisation above / at / below the cursor of the rescan: C07's `ij_processBlock`) or a STALE one — a block of a
+    branch the node has left (`block_ij_total`: the step fails and changes nothing, or it is a pure rollback onto the
+    followed chain) -/
 theorem JI_handle {cfg : Cfg} {G : Block} (E : StaticOK cfg.st G) (cr : Bool) {x : SysQ} {k : Skel} {w : Wid}
-    (hJ : JI cfg G x k w) (hon : ∀ b ∈ x.queue, k.chain[b.height]? = some b) :
-    JI cfg G (stepQ cfg.st cfg.n cr x .handle) k w := by
+    (hJ : JI cfg G x k w) : JI cfg G (stepQ cfg.st cfg.n cr x .handle) k w := by
   cases hq : x.queue with
   | nil =>
     have h1 : stepQ cfg.st cfg.n cr x .handle = x := by simp only [stepQ, hq]
     rw [h1]; exact hJ
   | cons b q =>
-    obtain ⟨hc, hks, hkeys, hw, hnW, hnA, ⟨X, hX, hIJ, hv, _, _⟩, hqk, hql, hN, hcur, hoth, htask⟩ := hJ
-    have hb : k.chain[b.height]? = some b := hon b (by rw [hq]; exact List.mem_cons_self)
+    obtain ⟨hc, hks, hkeys, hw, hnW, hnA, ⟨X, hX, hIJ, hv, ⟨c0, hc0m, hXc0⟩, _⟩, hqk, hql, hN, hcur, hoth, htask⟩ := hJ
+    have hbk : AMap.get cfg.st.known b.id = some b := hqk b (by rw [hq]; exact List.mem_cons_self)
     have h1 : stepQ cfg.st cfg.n cr x .handle =
         { x with queue := q, P := ((opBlock (envAt cfg.st k.chain) cfg.n b).run none x.P x.V).P,
                  V := ((opBlock (envAt cfg.st k.chain) cfg.n b).run none x.P x.V).V } := by
       simp only [stepQ, hq, hc]
-    obtain ⟨_, _, b3, b4, b5, b6, b7, b8⟩ := block_ij E hN hX cfg.n hks hkeys hnA hw hIJ hv hb
     rw [h1]
-    have hdone : importDone ((opBlock (envAt cfg.st k.chain) cfg.n b).run none x.P x.V).P w = importDone x.P w := by
-      rw [importDone_eta, ij_importDone b6, importDone_eta x.P, ij_importDone hIJ]
-      exact readyB_of_readyWallets b8 w
-    refine ⟨hc, b3, b4, hw, hnW, hnA, ⟨k.chain.take (b.height + 1), hN.take _, b6, b7,
-      ⟨k.chain, hcur, List.take_prefix _ _⟩, ?_⟩, fun y hy => hqk y (by rw [hq]; exact List.mem_cons_of_mem _ hy), ?_, hN,
-      hcur, ?_, ?_⟩
-    · intro hq0
-      have hq0' : q = [] := hq0
-      have hl := hql (by rw [hq]; simp)
-      rw [hq, hq0', List.getLast?_singleton] at hl
-      obtain ⟨_, hlen⟩ := hN.good.getLast_at hl.symm
-      rw [hlen, List.take_length]
-    · intro hqne
-      have hqne' : q ≠ [] := hqne
+    have hql' : q ≠ [] → q.getLast? = k.chain.getLast? := by
+      intro hqne
       have hl := hql (by rw [hq]; simp)
       rw [hq] at hl
-      show q.getLast? = _
       rw [← hl]
       cases q with
-      | nil => exact absurd rfl hqne'
+      | nil => exact absurd rfl hqne
       | cons a t => rw [List.getLast?_cons_cons]
-    · intro w' hw' hne
-      show readyB ((opBlock (envAt cfg.st k.chain) cfg.n b).run none x.P x.V).P.led w' = true
-      rw [readyB_of_readyWallets b8 w']; exact hoth w' hw' hne
-    · intro hnd
-      show ((opBlock (envAt cfg.st k.chain) cfg.n b).run none x.P x.V).V.tasks.contains (.imp w) = true
-      rw [b5]; exact htask (by rw [← hdone]; exact hnd)
+    have hqk' : ∀ y ∈ q, AMap.get cfg.st.known y.id = some y := fun y hy => hqk y (by rw [hq]; exact List.mem_cons_of_mem _ hy)
+    -- what is common to both cases
+    have hcommon : ∀ (X' : List Block), ChainOK (lenv cfg.st k.ks) G X' → (∃ c ∈ k.hist, X' <+: c) → (q = [] → X' = k.chain) →
+        ((opBlock (envAt cfg.st k.chain) cfg.n b).run none x.P x.V).P.ks = k.ks →
+        ((opBlock (envAt cfg.st k.chain) cfg.n b).run none x.P x.V).V.keys = k.ks →
+        ((opBlock (envAt cfg.st k.chain) cfg.n b).run none x.P x.V).V.tasks = x.V.tasks →
+        (∀ l, readyWallets ((opBlock (envAt cfg.st k.chain) cfg.n b).run none x.P x.V).P.led l = readyWallets x.P.led l) →
+        IJ ((lenv cfg.st k.ks).ctx k.chain) w ((opBlock (envAt cfg.st k.chain) cfg.n b).run none x.P x.V).P.led X' →
+        ((opBlock (envAt cfg.st k.chain) cfg.n b).run none x.P x.V).V.led.best = tipMeta X' →
+        JI cfg G { x with queue := q, P := ((opBlock (envAt cfg.st k.chain) cfg.n b).run none x.P x.V).P,
+                          V := ((opBlock (envAt cfg.st k.chain) cfg.n b).run none x.P x.V).V } k w := by
+      intro X' hX' hpre hq0 b3 b4 b5 b8 b6 b7
+      have hdone : importDone ((opBlock (envAt cfg.st k.chain) cfg.n b).run none x.P x.V).P w = importDone x.P w := by
+        rw [importDone_eta, ij_importDone b6, importDone_eta x.P, ij_importDone hIJ]
+        exact readyB_of_readyWallets b8 w
+      refine ⟨hc, b3, b4, hw, hnW, hnA, ⟨X', hX', b6, b7, hpre, hq0⟩, hqk', hql', hN, hcur, ?_, ?_⟩
+      · intro w' hw' hne
+        show readyB ((opBlock (envAt cfg.st k.chain) cfg.n b).run none x.P x.V).P.led w' = true
+        rw [readyB_of_readyWallets b8 w']; exact hoth w' hw' hne
+      · intro hnd
+        show ((opBlock (envAt cfg.st k.chain) cfg.n b).run none x.P x.V).V.tasks.contains (.imp w) = true
+        rw [b5]; exact htask (by rw [← hdone]; exact hnd)
+    by_cases hqe : q = []
+    · -- the last queued notification is the node's tip
+      have hl := hql (by rw [hq]; simp)
+      rw [hq, hqe, List.getLast?_singleton] at hl
+      obtain ⟨hb, hlen⟩ := hN.good.getLast_at hl.symm
+      obtain ⟨_, _, b3, b4, b5, b6, b7, b8⟩ := block_ij E hN hX cfg.n hks hkeys hnA hw hIJ hv hb
+      exact hcommon (k.chain.take (b.height + 1)) (hN.take _) ⟨k.chain, hcur, List.take_prefix _ _⟩
+        (fun _ => by rw [hlen, List.take_length]) b3 b4 b5 b8 b6 b7
+    · obtain ⟨b3, b4, b5, b8, X', hX', hpre, b6, b7, _, _⟩ := block_ij_total E hN hX cfg.n hks hkeys hnA hw hIJ hv hbk
+      refine hcommon X' hX' ?_ (fun h => absurd h hqe) b3 b4 b5 b8 b6 b7
+      rcases hpre with h | h
+      · exact ⟨c0, hc0m, h.trans hXc0⟩
+      · exact ⟨k.chain, hcur, h⟩
 
 -- ------------------------------------------------------------------ unconfirmed transactions
 
